@@ -1355,6 +1355,7 @@ type vVerdict struct {
 	Deliveries   int      `json:"deliveries"`
 	InjectedSeen int      `json:"injected_seen"`
 	Features     []string `json:"features"`
+	PostTraffic  int      `json:"post_traffic"`
 }
 
 // fair suffix: expire stale conversations, then loss-free gossip rounds in every direction until all
